@@ -46,6 +46,8 @@ def cases(draw):
 
 
 def run_case(case, ctx):
+    if case.get("check") == "big-export":
+        return big_export(case, ctx)
     from seismic_zfp.read import SgzReader
     from seismic_zfp.conversion import SgzConverter
     d = ctx.tmp()
@@ -146,7 +148,57 @@ def run_case(case, ctx):
             + (["src:" + (case.get("src_form") or "str")] if case["via"] == "api" else [])}
 
 
+# ---- one export of more than 65 536 traces, every run (vp/big.py) -------------------------------------------------
+def big_export(case, ctx):
+    """SEG-Y (66 306 traces, IEEE) -> SGZ -> SEG-Y, compared byte-wise: the exported file must hold the original's
+    3600 header bytes, every 240-byte trace header (all 89 fields cover it), and as samples the values the SGZ
+    decodes to; same length, hence same trace count."""
+    from seismic_zfp.conversion import SgzConverter
+    from seismic_zfp.read import SgzReader
+    from .. import big
+    d = ctx.tmp()
+    S = sources.build(big.REGULAR, d)
+    sgz, out = os.path.join(d, "o.sgz"), os.path.join(d, "back.sgy")
+    conv.segy_convert(S.path, sgz, 16, (4, 4, 128), header_detection=case["mode"], reduce_iops=case["reduce"])
+    if case["via"] == "api":
+        c = SgzConverter(sgz)
+        try:
+            with conv.env.quiet():
+                c.convert_to_segy(out)
+        finally:
+            c.close()
+    else:
+        code, exc = conv.cli_invoke(["sgz2sgy", sgz, out])
+        if code != 0:
+            raise Violation("cli-failed", f"sgz2sgy exit {code}: {exc!r}")
+    a, b = np.fromfile(S.path, dtype=np.uint8), np.fromfile(out, dtype=np.uint8)
+    ns, n = big.REGULAR["ns"], big.REGULAR["n_il"] * big.REGULAR["n_xl"]
+    rec = 240 + 4 * ns
+    if len(b) != len(a):
+        raise Violation("tracecount", f"exported file holds {(len(b) - 3600) / rec:g} traces of {ns} samples, the original {n}")
+    if not np.array_equal(a[:3600], b[:3600]):
+        raise Violation("file-header-bytes", "first 3600 bytes differ (survey of 66 306 traces)")
+    ta, tb = a[3600:].reshape(n, rec), b[3600:].reshape(n, rec)
+    bad = np.flatnonzero((ta[:, :240] != tb[:, :240]).any(axis=1))
+    if len(bad):
+        raise Violation("trace-header", f"{len(bad)} of {n} trace headers differ from the original's, first at trace {int(bad[0])}")
+    with SgzReader(sgz) as r:
+        vol = r.read_volume()
+    got = tb[:, 240:].copy().view(">f4").reshape(n, ns).astype(np.float32)
+    if not codec.bits_equal(got, vol.reshape(n, ns)):
+        raise Violation("samples-ieee", f"exported samples differ from the SGZ's decoded values: {codec.first_diff(got, vol.reshape(n, ns))}")
+    return {"sig": ["big-export", case["mode"], case["via"], case["reduce"]], "labels": ["big-export", case["via"]]}
+
+
 def shard_main(ctx):
+    if ctx.shard in (1, 4):
+        case = {"check": "big-export", "mode": "heuristic" if ctx.shard == 1 else "thorough", "via": "api" if ctx.shard == 1 else "cli",
+                "reduce": ctx.shard == 4}
+        try:
+            ctx.evaluate(case, run_case)
+        except Violation as v:
+            ctx.failures.append({"kind": v.kind, "detail": v.detail, "case": case})
+            return
     ctx.explore("export", cases(), run_case, ctx.n(200, 2000))
 
 
